@@ -253,6 +253,12 @@ class SymEval:
             if base[0] == "v":
                 if self.detach and not isinstance(base[1], PW):
                     return ("s", self.alg.atom("elem[%r]" % base[1]))
+                be = peel(e["e"])
+                whole = isinstance(be, dict) and ((be.get("k") == "Field" and be.get("name") == "values" and be.get("adt") == ARRAY) or
+                                                  (be.get("k") == "Call" and resolved(be) == "corgi::array::Array::values"))
+                if whole and isinstance(i, int) and not isinstance(base[1], PW) and not (i == 0 and base[1].atoms() and set(base[1].atoms()) <= getattr(self, "single_atoms", set())):
+                    # a FIXED position of an operand's whole buffer: one particular number, not the element that varies with the position
+                    return ("s", self.alg.atom("elem%d[%r]" % (i, base[1])))
                 return ("s", base[1])          # one element of an element-wise vector
             if base[0] == "dims" and isinstance(i, int) and self.uninterp:
                 return ("s", self.alg.atom("dim%d[%s]" % (i, base[1])))
@@ -303,6 +309,17 @@ class SymEval:
                 return self.ev_match(fake, env)
         if cond.get("k") == "Let" or e.get("else") is None:
             return ("unk", "if-let / if without else")
+        # a comparison of two constants (a parameter this evaluation fixed to a number against a literal) is decided
+        if cond.get("k") == "Binary" and cond.get("op") in ("Eq", "Ne", "Lt", "Le", "Gt", "Ge"):
+            try:
+                l_ = self.scalar(self.ev(cond["l"], env))
+                r_ = self.scalar(self.ev(cond["r"], env))
+                if not isinstance(l_, PW) and not isinstance(r_, PW) and not l_.atoms() and not r_.atoms() and l_.d == Poly.const(1) and r_.d == Poly.const(1):
+                    a_, b_ = l_.n.t.get((), 0), r_.n.t.get((), 0)
+                    tv = {"Eq": a_ == b_, "Ne": a_ != b_, "Lt": a_ < b_, "Le": a_ <= b_, "Gt": a_ > b_, "Ge": a_ >= b_}[cond["op"]]
+                    return self.ev(e["then"] if tv else e["else"], env)
+            except (Abstain, Unsupported):
+                pass
         t = self.ev(e["then"], env)
         f = self.ev(e["else"], env)
         # `|y| < K` with a positive constant K: a piecewise value whose first piece lives on a non-empty interval around 0
@@ -374,6 +391,23 @@ class SymEval:
     def ev_match(self, e, env):
         sv = self.ev(e["scrutinee"], env)
         outs = []
+        if sv[0] == "dims" and all(a["pat"].get("k") in ("Slice", "Array", "Binding", "Wild") or
+                                   (a["pat"].get("k") in ("Deref", "DerefPattern") and a["pat"]["sub"].get("k") in ("Slice", "Array", "Binding", "Wild")) for a in e["arms"]):
+            # a match on the SHAPE (slice patterns over the dimension vector): which arm is taken depends on the rank, so every arm's
+            # value is a possible value; a name bound to the whole vector is the vector
+            for a in e["arms"]:
+                p = a["pat"]
+                while p.get("k") in ("Deref", "DerefPattern"):
+                    p = p["sub"]
+                e2 = Env(env)
+                if p.get("k") == "Binding":
+                    e2[p["v"]] = sv
+                elif p.get("k") in ("Slice", "Array"):
+                    for q in (p.get("prefix") or []) + (p.get("suffix") or []) + ([p["slice"]] if isinstance(p.get("slice"), dict) else []):
+                        for v_, _, _, _ in F.pat_bindings(q):
+                            e2[v_] = ("unk", "an element of the dimension vector bound by a slice pattern")
+                outs.append(self.ev(a["body"], e2))
+            return self.mk_alt(outs)
         for x in self.alts(sv):
             for a in e["arms"]:
                 p = a["pat"]
@@ -525,6 +559,10 @@ class SymEval:
                 return self.map1(x, self.alg.exp)
             if m == "ln":
                 return self.map1(x, self.alg.ln)
+            if m == "ln_1p":
+                return self.map1(x, lambda v: self.alg.ln(v + Frac(Poly.const(1))))
+            if m == "exp_m1":
+                return self.map1(x, lambda v: self.alg.exp(v) - Frac(Poly.const(1)))
             if m == "recip":
                 for xx in self.alts(x):
                     if xx[0] in ("s", "v", "arr") and not isinstance(xx[1], PW):
@@ -551,6 +589,14 @@ class SymEval:
                         return self.alg.atom("p:abs[%r]" % v)      # a function of scalar parameters only: itself a scalar parameter
                     return self.alg.atom("abs[%r]" % v)
                 return self.map1(x, _abs)
+            if m == "clamp" and len(args) == 3:
+                # x limited to [lo, hi] with finite constant bounds: an opaque function of x that differs from x outside the interval
+                lo_, hi_ = lit_value(args[1]), lit_value(args[2])
+                if isinstance(lo_, (int, float)) and isinstance(hi_, (int, float)) and lo_ == lo_ and hi_ == hi_ and abs(lo_) != float("inf") and abs(hi_) != float("inf"):
+                    def _clamp(v):
+                        return self.alg.atom("clamp[%r|%r|%r]" % (v, lo_, hi_))
+                    return self.map1(x, _clamp)
+                return ("unk", "clamp with bounds that are not finite constants")
             if m in ("copysign",) and len(args) == 2:
                 # +-|x| with the sign of the second argument: an opaque value (never equal to anything else)
                 y = self.ev(args[1], env)
@@ -664,11 +710,32 @@ class SymEval:
             if base[0] == "v":
                 if self.detach and not isinstance(base[1], PW):
                     return ("s", self.alg.atom("elem[%r]" % base[1]))
+                be = peel(args[0])
+                hops_ = 0
+                while isinstance(be, dict) and be.get("k") == "Call" and callee(be) in ("core::ops::deref::Deref::deref", "alloc::vec::Vec::<T, A>::as_slice", "core::convert::AsRef::as_ref") and be["args"] and hops_ < 4:
+                    be = peel(be["args"][0])
+                    hops_ += 1
+                whole = isinstance(be, dict) and ((be.get("k") == "Field" and be.get("name") == "values" and be.get("adt") == ARRAY) or
+                                                  (be.get("k") == "Call" and resolved(be) == "corgi::array::Array::values"))
+                if whole and isinstance(i, int) and not isinstance(base[1], PW) and not (i == 0 and base[1].atoms() and set(base[1].atoms()) <= getattr(self, "single_atoms", set())):
+                    return ("s", self.alg.atom("elem%d[%r]" % (i, base[1])))     # a fixed position of an operand's whole buffer: one particular number
                 return ("s", base[1])
             return ("unk", "index of %s" % base[0])
         if r == "corgi::array::Array::dimensions":
             a = self.ev(args[0], env) if args else ("unk", "")
             return ("dims", repr(a[1]) if a[0] == "arr" else "?")
+        if c in ("core::option::Option::<T>::unwrap_or_else", "core::option::Option::<T>::unwrap_or") and len(args) == 2:
+            a = self.ev(args[0], env)
+            outs = []
+            for x in self.alts(a):
+                if x[0] == "opt" and x[1] is not None:
+                    outs.append(self.force(x[1]))
+                elif x[0] == "opt":
+                    d_ = self.ev(args[1], env)
+                    outs.append(self.apply(d_, []) if c.endswith("unwrap_or_else") else d_)
+                else:
+                    outs.append(("unk", "%s on %s" % (c.rsplit("::", 1)[-1], x[0])))
+            return self.mk_alt(outs)
         if self.uninterp:
             if c == "core::iter::traits::iterator::Iterator::product" and args:
                 a = self.ev(args[0], env)
@@ -690,6 +757,12 @@ class SymEval:
                     return ("s", self.alg.atom("count[%r]" % a[1]))
                 if a[0] == "dims":
                     return ("s", self.alg.atom("rank[%s]" % a[1]))
+            if c == "core::option::Option::<T>::filter" and len(args) == 2:
+                # the predicate is not evaluated: the value is kept for some inputs and dropped for others
+                a = self.ev(args[0], env)
+                if a[0] == "opt":
+                    return a if a[1] is None else self.mk_alt([a, ("opt", None)])
+                return ("unk", "Option::filter on %s" % a[0])
             if c == "core::option::Option::<T>::map" and len(args) == 2:
                 a = self.ev(args[0], env)
                 if a[0] == "opt" and a[1] is not None:
@@ -853,19 +926,27 @@ def _combinator_result(facts, ev, b, argvals):
                     pairs.append([None, None])
     if not pairs or any(None in p_ for p_ in pairs):
         return None
+    import itertools as _it
     outs = []
     for pair in pairs:
-        vals = []
+        choices = []
         for i in pair:
             if not isinstance(i, int) or not (0 <= i < len(order)):
                 return None
             v = order[i]
-            a = argvals[aidx[avars.index(v)]]
-            if a[0] != "arr":
-                return ("unk", "combinator operand is %s" % a[0])
-            vals.append(("s", a[1]))
-        out = ev.apply(argvals[fidx[0]], vals)
-        outs.extend(("arr", x[1]) if x[0] == "s" else ("unk", x[1] if x[0] == "unk" else "combinator result %s" % x[0]) for x in ev.alts(out))
+            choices.append(ev.alts(argvals[aidx[avars.index(v)]]))
+        n_comb = 1
+        for ch in choices:
+            n_comb *= max(1, len(ch))
+        if n_comb > 8:
+            return ("unk", "too many alternatives for the combinator's operands")
+        for combo in _it.product(*choices):
+            bad = [a for a in combo if a[0] != "arr"]
+            if bad:
+                outs.append(("unk", "combinator operand is %s" % bad[0][0]))
+                continue
+            out = ev.apply(argvals[fidx[0]], [("s", a[1]) for a in combo])
+            outs.extend(("arr", x[1]) if x[0] == "s" else ("unk", x[1] if x[0] == "unk" else "combinator result %s" % x[0]) for x in ev.alts(out))
     return ev.mk_alt(outs)
 
 
@@ -983,15 +1064,25 @@ def r33_derivative_formula(facts):
         name = b["def"]
         where = "%s:%d" % (F.rel(cb["file"]), cb["sp"][0])
         fw = Forward(facts)
+
+        def unread_exits():
+            """early returns of a derivative closure whose value this rule cannot compare with anything: a second route by which operands receive their adjoints"""
+            for rn in walk(facts.root(cb)):
+                if rn.get("k") == "Return" and rn.get("e") is not None and any(
+                        x.get("k") == "Adt" and (x.get("adt") or "").endswith("option::Option") and x.get("variant") == "Some" for x in walk(rn["e"])):
+                    c.unk("early-return:%s" % name, F.loc(cb, rn), "the derivative closure has a second exit (`return %s`) that delivers adjoints computed another way; this operation is not one whose "
+                          "derivative this rule reads, so what that exit delivers is not compared with anything" % show(rn["e"])[:50])
         try:
             val, names, n_arr = fw.ctor(b)
         except (Abstain, Unsupported, RecursionError) as ex:
             c.ok("forward:%s" % name, where, "not an element-wise operation the algebra can read (%s): not judged by this rule" % ex, nontrivial=False)
+            unread_exits()
             continue
         vals = [x for x in fw.ev.alts(val)]
         if len(vals) != 1 or vals[0][0] != "arr":
             why = vals[0][1] if vals and vals[0][0] == "unk" else "several possible values"
             c.ok("forward:%s" % name, where, "forward value is not an element-wise expression (%s): not judged by this rule" % str(why)[:80], nontrivial=False)
+            unread_exits()
             continue
         fexpr = vals[0][1]
         # operand recorded in slot i
@@ -1045,6 +1136,70 @@ def r33_derivative_formula(facts):
             ev.bind(p["pat"], v, e2)
         broot = strip(facts.root(cb))
         benv = ev.block_env(broot, e2) if broot.get("k") == "Block" else e2
+        # early returns of the closure deliver slot vectors too: each is what the operands receive for the inputs its guard admits
+        from .repr_rules import vec_literal_elems as _vle
+        import re as _re2
+        for rn, rctx in F.walk_ctx(broot):
+            if rn.get("k") != "Return" or rn.get("e") is None:
+                continue
+            # operands the guard of this return declares to hold ONE value (`c[k].values.len() == 1`): for them the first element is the element
+            single = set()
+            for cond, truth in F.path_facts(rctx):
+                for cs in ([strip(cond)] if truth else []):
+                    stack_ = [cs]
+                    while stack_:
+                        q = stack_.pop()
+                        if not isinstance(q, dict):
+                            continue
+                        if q.get("k") == "LogicalOp" and q.get("op") == "And":
+                            stack_ += [strip(q["l"]), strip(q["r"])]
+                        elif q.get("k") == "Binary" and q.get("op") == "Eq" and (lit_value(q["r"]) == 1 or lit_value(q["l"]) == 1):
+                            side = q["l"] if lit_value(q["r"]) == 1 else q["r"]
+                            try:
+                                sv_ = ev.ev(side, benv)
+                            except (Abstain, Unsupported, RecursionError):
+                                sv_ = ("unk", "")
+                            for lenx in walk(side):
+                                if lenx.get("k") == "Call" and (callee(lenx) or "").endswith("::len") and lenx["args"]:
+                                    try:
+                                        bv_ = ev.ev(lenx["args"][0], benv)
+                                    except (Abstain, Unsupported, RecursionError):
+                                        bv_ = ("unk", "")
+                                    if bv_[0] == "v" and not isinstance(bv_[1], PW) and len(bv_[1].atoms()) == 1:
+                                        single |= set(bv_[1].atoms())
+            rel_ = _vle(strip(rn["e"]))
+            if rel_ is None or len(rel_) < len(order):
+                c.unk("early-return:%s" % name, F.loc(cb, rn), "the derivative closure returns early with a value that is not a slot vector literal (`%s`): what the operands receive on that path is not read" % show(rn["e"])[:60])
+                continue
+            for i, se in enumerate(rel_[:len(order)]):
+                atom = names[order[i]]
+                try:
+                    ev.single_atoms = set(single)      # for these operands the first element IS the element
+                    try:
+                        v = ev.ev(se, benv)
+                    finally:
+                        ev.single_atoms = set()
+                    got = []
+                    for x in ev.alts(v):
+                        if x[0] == "opt":
+                            if x[1] is not None:
+                                got.extend(ev.alts(x[1]))
+                        else:
+                            got.append(x)
+                    want = lift(lambda x, y: x * y, lift1(lambda f_: fw.alg.diff(f_, atom), fexpr), D)
+                    stray = sorted({a_ for x in got if x[0] == "arr" and not isinstance(x[1], PW) for a_ in x[1].atoms() if _re2.match(r"elem\d+\[a\d+\]$", a_)})
+                    if not got:
+                        c.unk("early-return:%s#%d" % (name, i), F.loc(cb, se), "on an early return operand %d receives nothing; whether its guard implies that the operand is untracked is not decided" % i)
+                    elif all(x[0] == "arr" for x in got) and all(same(x[1], want) for x in got):
+                        c.ok("early-return:%s#%d" % (name, i), F.loc(cb, se), "the early return delivers the same D * d/d%s as the general path%s" % (atom, " (one-value operands: %s)" % sorted(single) if single else ""))
+                    elif stray and not isinstance(want, PW) and not any(a_ in want.atoms() for a_ in stray):
+                        c.bad("early-return:%s#%d" % (name, i), F.loc(cb, se), "an early return delivers `%s` to operand %d, which uses ONE fixed element (`%s`) of an operand its guard does not restrict to one value, "
+                              "where the derivative %r varies with the position: wrong as soon as that operand has two different elements" % (show(se)[:50], i, stray[0], want))
+                    else:
+                        c.unk("early-return:%s#%d" % (name, i), F.loc(cb, se), "an early return delivers `%s` to operand %d where the derivative is %r: whether the guard of the return makes the two equal "
+                              "is not decided" % (show(se)[:50], i, want))
+                except (Abstain, Unsupported, RecursionError) as ex:
+                    c.unk("early-return:%s#%d" % (name, i), F.loc(cb, se), "an early return delivers a value outside the algebra to operand %d (%s)" % (i, ex))
         for i, se in enumerate(slots[:len(order)]):
             inst = "slot:%s#%d" % (name, i)
             swhere = F.loc(cb, se)
@@ -1076,7 +1231,16 @@ def r33_derivative_formula(facts):
                     c.ok(inst, swhere, "slot = D * d/d%s (%r) = %r" % (atom, fexpr, want))
                 else:
                     risky = any(a.startswith("ln[") for x in got if not isinstance(x[1], PW) for a in x[1].atoms())
-                    msg = "the forward map is %r, so the delta for operand %d must be %r, but the closure computes %r" % (fexpr, i, want, got[0][1])
+                    off_ = got[0]
+                    for x_ in got:
+                        try:
+                            if not same(x_[1], want):
+                                off_ = x_
+                                break
+                        except Unsupported:
+                            pass
+                    msg = "the forward map is %r, so the delta for operand %d must be %r, but the closure computes %r%s" % (
+                        fexpr, i, want, off_[1], " for some inputs (one of %d alternatives)" % len(got) if len(got) > 1 else "")
                     if risky:
                         c.unk(inst, swhere, msg + " (involves ln: identities of ln are not decided)")
                     else:
